@@ -16,6 +16,22 @@ CHECKS = {
          "Trusted: TLC's evaluation of Relations.tla/Costs.tla, the index->value mapping of vlib/cases.py, exactness of float arithmetic on the alphabet.",
          "DESIGN.md section 4 C12"),
 }
+_T = ("trace validation by TLC (AlgoMon.tla) of executions of the real computations under seeded FIFO schedules, "
+      "on TLC-generated instances (Gen_Dcop.tla)")
+_N = ("Trusted: TLC's evaluation of AlgoMon.tla/Dcop.tla, vlib/simrt.py (message plumbing only; its FIFO discipline is re-validated "
+      "by AlgoMon's network clauses). Schedules are sampled (seeded, four policies), not exhausted, at this level.")
+CHECKS["C03"] = ("model_checking", _T,
+    "Whole executions of the real MGM and MGM2 computations (min/max, with and without own-value costs, binary/ternary/parallel/unary "
+    "constraints) are recorded and judged by TLC against AlgoMon.tla: at every instant where all computations completed the same "
+    "number of cycles the global cost (Dcop.tla) must not be worse than at the previous such instant, and two constraint-sharing "
+    "variables may both have changed only if an accepted MGM2 offer between them was delivered in that cycle.", _N, "DESIGN.md section 4 C03")
+CHECKS["C04"] = ("model_checking", _T,
+    "Same executions as C03; whenever two consecutive equal-cycle snapshots are identical TLC evaluates OneOpt (Dcop.tla) on the assignment.",
+    _N, "DESIGN.md section 4 C04")
+CHECKS["C07"] = ("model_checking", _T,
+    "Executions of the real MGM, MGM2 and DSA (variants A, B, C) computations with stop_cycle k in {1,2,3,5} on shapes including isolated "
+    "variables and n-ary constraints; TLC checks: no handler raised, quiescence implies every computation reported finished, and each "
+    "finished report happens at cycle k (or at start for a computation without neighbour).", _N, "DESIGN.md section 4 C07")
 NOT_YET = "check not built yet in this snapshot (work in progress, see DESIGN.md section 9)"
 
 fix_commits = subprocess.run(["git", "-C", "/repo", "log", "--format=%h %s", "aeaae91..HEAD"], capture_output=True, text=True).stdout.splitlines()
